@@ -1,3 +1,5 @@
+mod c10;
+mod c11;
 mod c13;
 mod c18;
 mod pool;
@@ -13,6 +15,13 @@ fn main() {
     let env = Env::from_env();
     match args.get(1).map(|s| s.as_str()) {
         Some("smoke") => smoke(&env),
+        Some("C10") | Some("C11") => {
+            let tier = args.get(2).map(|s| s.as_str()).unwrap_or("quick");
+            let replay = args.iter().position(|a| a == "--replay").and_then(|i| args.get(i + 1)).map(|s| s.as_str());
+            let code = if args[1] == "C10" { c10::main_c10(&env, tier, simcore::rng::verif_seed(), replay) } else { c11::main_c11(&env, tier, simcore::rng::verif_seed(), replay) };
+            env.cleanup();
+            std::process::exit(code);
+        }
         Some("C13") => {
             let tier = args.get(2).map(|s| s.as_str()).unwrap_or("quick");
             let replay = args.iter().position(|a| a == "--replay").and_then(|i| args.get(i + 1)).map(|s| s.as_str());
